@@ -427,8 +427,9 @@ def layout_runs(n, r):
         p = list(range(1, n + 1))
         r.shuffle(p)
         rs.append({"tag": "perm%d" % i, "perm": p})
-    for m in (2, 3, 4):
-        if n * m <= 48:
+    # (5 and 7 give layouts with an odd number of steps: nothing in the code may depend on the parity or size of n)
+    for m in (2, 3, 4, 5, 7):
+        if n * m <= 60:
             rs.append({"tag": "sub%d" % m, "sub": m})
     return rs
 
